@@ -4,7 +4,8 @@
 // [DuplicateFilter], random-duration handler, recording sink.  Every probe takes a global atomic ticket, so the
 // recorded events are totally ordered; the schedule-point hook (QTLOGGER_VERIF_POINT) injects seeded
 // yields/sleeps and records the lock acquisitions.  One run per input line:
-//     <mode> <threads> <messages per thread> <seed> <perturb 0..3> <dup 0|1>
+//     <mode> <threads> <messages per thread> <seed> <perturb 0..3> <dup 0|1> [<stall ms>]
+// (stall: the first handler sleeps that long once, on message 1 of producer 0 — a handler of long duration)
 // output per run:  "RUN ..." then one line of events in ticket order, tokens
 //     E.<p>.<i>  pipeline entered with message i of producer p      X.<p>.<i>.<seq>  sink received it
 //     L.<p>.<i>  "logger.locked" passed                              M.<p>.<i>  "own.locked" passed
@@ -28,6 +29,7 @@ struct Ev { char kind; int prod, idx, seq; };
 static std::vector<Ev> g_events;
 static std::atomic<long> g_ticket{0};
 static int g_perturb = 1;
+static int g_stall_ms = 0;
 thread_local int tl_prod = -1;
 thread_local int tl_idx = -1;
 thread_local std::mt19937 tl_rng;
@@ -91,8 +93,13 @@ struct EnterProbe : Handler {
     bool process(LogMessage &m) override { int p, i; parse(m, p, i); record('E', p, i, 0); return true; }
 };
 struct RandomWork : Handler {   // a handler of random duration
-    bool process(LogMessage &) override
+    bool stalls = false;
+    bool process(LogMessage &m) override
     {
+        if (stalls && g_stall_ms > 0) {
+            int p, i; parse(m, p, i);
+            if (p == 0 && i == 1) usleep(g_stall_ms * 1000);
+        }
         unsigned r = tl_rng() % 16;
         if (r < 5) std::this_thread::yield();
         else if (r < 6 && g_perturb >= 2) usleep(tl_rng() % 80);
@@ -111,7 +118,9 @@ struct RecSink : Sink {
 };
 template <class P> static void build(P &pl, bool dup)
 {
-    pl << QSharedPointer<EnterProbe>::create() << QSharedPointer<RandomWork>::create() << SeqNumberAttrPtr::create();
+    auto first = QSharedPointer<RandomWork>::create();
+    first->stalls = true;
+    pl << QSharedPointer<EnterProbe>::create() << first << SeqNumberAttrPtr::create();
     if (dup) pl << DuplicateFilterPtr::create();
     pl << QSharedPointer<RandomWork>::create() << QSharedPointer<RecSink>::create();
 }
@@ -122,7 +131,8 @@ int main(int argc, char **argv)
     while (std::getline(std::cin, line)) {
         std::istringstream is(line);
         std::string mode; int n = 2, per = 10, dup = 0; unsigned seed = 1;
-        is >> mode >> n >> per >> seed >> g_perturb >> dup;
+        g_stall_ms = 0;
+        is >> mode >> n >> per >> seed >> g_perturb >> dup >> g_stall_ms;
         if (mode.empty()) continue;
         g_events.assign((size_t)n * per * 4 + 16, Ev { '?', 0, 0, 0 });
         g_ticket = 0;
